@@ -4527,7 +4527,8 @@ class Peek(Subconstruct):
                     return func()
                 except ExplicitError:
                     raise
-                except ConstructError:
+                except Exception:
+                    # generated code omits the checks that turn a failure into ConstructError (it raises KeyError, struct.error, ...)
                     pass
                 finally:
                     io.seek(fallback)
